@@ -336,7 +336,7 @@ func (c *Ctx) c09Confirm(b BK) {
 				if ev.Kind == pw.EvCall && ev.Role == "Std:bytes.Equal" && len(ev.Args) == 2 {
 					a, bb := ev.Args[0], ev.Args[1]
 					isK := func(v *pw.Val) bool {
-						return v.Kind == pw.KField && v.Field != nil && v.Field.Name() == "K" && v.Src == look.Results[0]
+						return v.Kind == pw.KField && v.Field != nil && fname(v.Field) == "K" && v.Src == look.Results[0]
 					}
 					if isK(a) && aliases(bb, key) || isK(bb) && aliases(a, key) {
 						if t, known := p.Truth(ev.Results[0]); known && t {
